@@ -265,6 +265,7 @@ pub struct FrontendCtx<'a, R: FileManager> {
     jsdoc_cache_by_file: BTreeMap<BffFileName, JsdocFileCache>,
     module_items_being_located: Vec<ModuleItemAddress>,
     files_being_extracted_as_value: Vec<BffFileName>,
+    values_being_extracted: Vec<ModuleItemAddress>,
 }
 
 #[derive(Debug)]
@@ -1116,6 +1117,7 @@ impl<'a, R: FileManager> FrontendCtx<'a, R> {
             jsdoc_cache_by_file: BTreeMap::new(),
             module_items_being_located: vec![],
             files_being_extracted_as_value: vec![],
+            values_being_extracted: vec![],
         }
     }
 
@@ -2594,8 +2596,19 @@ impl<'a, R: FileManager> FrontendCtx<'a, R> {
         address: &ModuleItemAddress,
         anchor: &Anchor,
     ) -> Res<Runtype> {
+        // `const a = { self: a }` / `const a = { b }; const b = { a }`: the type of such a value
+        // contains itself, evaluating it would never end
+        if self.values_being_extracted.contains(address) {
+            return self.error(
+                anchor,
+                DiagnosticInfoMessage::CannotNotResolveValue(address.clone()),
+            );
+        }
         let addressed_value = self.get_addressed_value(address, anchor)?;
-        self.extract_addressed_value(addressed_value, anchor)
+        self.values_being_extracted.push(address.clone());
+        let res = self.extract_addressed_value(addressed_value, anchor);
+        self.values_being_extracted.pop();
+        res
     }
 
     fn get_addressed_qualified_value_from_entity_name(
